@@ -36,6 +36,13 @@ Top-level clauses (from the property statement, oracle = reference model below, 
                         of the cell of the ladder sheet that holds the value
 Supporting (diagnostics only): exact placeholder texts, 'first run' choice when several runs of
 unknown columns exist.
+
+Several classes on one table (case['classes'], read with XlsTableReader(rules_1, rules_2[, rules_3])):
+every data row yields one entry per class; the clauses above are demanded of the objects of every
+class, where 'unknown titled column' means: titled and named by no attribute rule of ANY class that
+reads the table (doc of _ObjScrCellsMap.bind_titles_row).  Title cells may hold any value: the title
+text of a cell is str(value).strip() for every value that is not None (0, 0.0, False, ' Id ' are
+titles '0', '0.0', 'False', 'Id'); None and blank strings are untitled columns.
 """
 import contextlib
 import io
@@ -234,7 +241,9 @@ class Model:
                             break
                 self.run_len[r] = n
         self.attrs = case['attrs']
-        self.known = {a['column'] for a in self.attrs if a['kind'] == 'cell'}
+        self.own_columns = {a['column'] for a in self.attrs if a['kind'] == 'cell'}
+        # columns named by the rules of any class that reads this table (this one and the others)
+        self.known = self.own_columns | set(case.get('foreign_columns', ()))
         self.col_of = {}
         for c, x in enumerate(self.titles):
             if x:
@@ -247,6 +256,7 @@ class Model:
             else:
                 self.runs.append([c])
         self.has_ranged = any(a['kind'] == 'ranged' for a in self.attrs)
+        self.any_ranged = self.has_ranged or bool(case.get('foreign_ranged', False))
         # key attributes: the first num_id attributes of the class
         self.num_id = int(case['num_id'])
         self.id_cols = [self.col_of.get(a.get('column')) if a['kind'] == 'cell' else None
@@ -281,8 +291,42 @@ class Model:
         return ('range',)
 
 
+def views(case):
+    """one single-class case per class that reads the table (the case itself when it has one class);
+    a view of a multi-class case also names the columns / ranged attributes of the OTHER classes"""
+    if 'classes' not in case:
+        return [case]
+    out = []
+    classes = case['classes']
+    for i, c in enumerate(classes):
+        v = {k: x for k, x in case.items() if k != 'classes'}
+        v['attrs'] = c['attrs']
+        v['num_id'] = c['num_id']
+        v['class_index'] = i
+        v['foreign_columns'] = sorted({a['column'] for j, o in enumerate(classes) if j != i
+                                       for a in o['attrs'] if a['kind'] == 'cell'})
+        v['foreign_ranged'] = any(a['kind'] == 'ranged' for j, o in enumerate(classes) if j != i
+                                  for a in o['attrs'])
+        out.append(v)
+    return out
+
+
+def all_attrs(case):
+    if 'classes' in case:
+        return [a for c in case['classes'] for a in c['attrs']]
+    return case['attrs']
+
+
 def preconditions(case, m=None):
     """the narrower input domain (listed as assumptions of the check); returns None or the reason"""
+    if 'classes' in case:
+        if not 1 <= len(case['classes']) <= 3:
+            return 'number of classes'
+        for v in views(case):
+            why = preconditions(v)
+            if why is not None:
+                return why
+        return None
     m = m or Model(case)
     named = [x for x in m.titles if x]
     if len(named) != len(set(named)):
@@ -310,7 +354,7 @@ def preconditions(case, m=None):
                 if r in m.gap_rows:
                     continue        # margin-note row: every table cell 'same as above'
                 return 'ladder row blank to the end'
-            if m.has_ranged:
+            if m.any_ranged:
                 for run in m.runs:
                     if run[0] < e <= run[-1]:
                         return 'ladder run ends inside a column group'
@@ -321,6 +365,8 @@ def preconditions(case, m=None):
     if m.num_id:
         if m.num_id > len(m.attrs) or any(c is None for c in m.id_cols):
             return 'key attribute is not read from a cell'
+    if not any(a['kind'] == 'cell' and a['column'] in m.col_of for a in m.attrs):
+        return 'class without an attribute read from a single cell'
     for a in m.attrs:
         if a['kind'] == 'ranged' and not m.runs and 'default' not in a:
             return 'required ranged attribute without columns'
@@ -346,7 +392,8 @@ def _default_arg(spec):
 
 def build_rules(case):
     names = [a['name'] for a in case['attrs']]
-    cls = type('XlObjC18', (xlsread.XlsObject,), {'_ATTRS': names, '_NUM_ID_ATTRS': int(case['num_id'])})
+    cls = type(f"XlObjC18_{case.get('class_index', 0)}", (xlsread.XlsObject,),
+               {'_ATTRS': names, '_NUM_ID_ATTRS': int(case['num_id'])})
     rules = {}
     for a in case['attrs']:
         k = a['kind']
@@ -399,24 +446,42 @@ def guarded(seconds=10):
 
 
 def read_real(case, grid=None, ladder=None):
-    """-> ('ok', objs, sheet) | ('raise', type name, message) | ('budget', n)"""
+    """-> ('ok', [objs of class 0, objs of class 1, ...], sheet) | ('raise', type name, message)
+        | ('budget', n, sheet) | ('shape', text, sheet)
+    one class: the public iter_table; several classes: XlsTableReader(rules, ...).iter_table"""
     grid = case['grid'] if grid is None else grid
     ladder = case['ladder'] if ladder is None else ladder
     sheet = MockSheet(case.get('title', 'sheet1'), grid)
     cap = len(grid) + 3
-    objs = []
     try:
         with guarded():
-            cls, rules = build_rules(case)
-            for o in xlsread.iter_table(sheet, cls, rules, stop_on=case['stop_on'], ladder_format=bool(ladder)):
-                objs.append(o)
-                if len(objs) > cap:
-                    return ('budget', len(objs), sheet)
+            if 'classes' not in case:
+                objs = []
+                cls, rules = build_rules(case)
+                for o in xlsread.iter_table(sheet, cls, rules, stop_on=case['stop_on'], ladder_format=bool(ladder)):
+                    objs.append(o)
+                    if len(objs) > cap:
+                        return ('budget', len(objs), sheet)
+                return ('ok', [objs], sheet)
+            vs = views(case)
+            per = [[] for _ in vs]
+            rrules = [xlsread.XlsObjReadRules(*build_rules(v)) for v in vs]
+            reader = xlsread.XlsTableReader(*rrules)
+            n = 0
+            for entry in reader.iter_table(sheet, stop_on=case['stop_on'], ladder_format=bool(ladder)):
+                n += 1
+                if n > cap:
+                    return ('budget', n, sheet)
+                if not isinstance(entry, (list, tuple)) or len(entry) != len(vs):
+                    return ('shape', f"entry {n - 1} of the table is {entry!r}: not one item per class "
+                                     f"({len(vs)} classes)", sheet)
+                for objs, o in zip(per, entry):
+                    objs.append(o)
+            return ('ok', per, sheet)
     except Budget:
         return ('budget', -1, sheet)
     except Exception as e:      # noqa  (code under test may raise anything)
         return ('raise', type(e).__name__, str(e)[:200])
-    return ('ok', objs, sheet)
 
 
 def get_origin(o, name, key=None):
@@ -551,7 +616,8 @@ def check_objects(case, m, objs):
 def _check_ranged(case, m, o, a, val, r, out, diags, row_fail):
     name = a['name']
     shape, elem = RANGED[a['reader']]
-    cands = [m.titles[c] for c in m.unknown_cols]
+    # every titled column is asked for: a key under a column that some class names is reported as well
+    cands = [t for t in m.titles if t]
     keys = {}
     for t in cands:
         txt, err = get_origin(o, name, t)
@@ -601,8 +667,9 @@ def _check_ranged(case, m, o, a, val, r, out, diags, row_fail):
     key_cols = sorted(m.col_of[k] for k in keys)
     if key_cols and key_cols not in m.runs:
         out.append(('ranged_origin', 'group-differs',
-                    f"row {r + 1}: keys of '{name}' are columns {[col_letters(c) for c in key_cols]}; runs of unknown "
-                    f"titled columns: {[[col_letters(c) for c in run] for run in m.runs]}"))
+                    f"row {r + 1}: keys of '{name}' are columns {[col_letters(c) for c in key_cols]} "
+                    f"{sorted(keys)}; runs of titled columns that no class names (titles {m.titles}): "
+                    f"{[[col_letters(c) for c in run] for run in m.runs]}"))
     elif not key_cols and m.runs:
         out.append(('ranged_origin', 'group-differs', f"row {r + 1}: '{name}' has no key although unknown titled "
                                                       f"columns exist"))
@@ -633,16 +700,9 @@ def _check_ranged(case, m, o, a, val, r, out, diags, row_fail):
                     f"{want} of the object of row {r + 1}"))
 
 
-def check_ladder(case, m, objs):
-    """clause 4: ladder read == plain read of the filled-in sheet (same extent)"""
+def check_ladder(case, m, objs, fobjs):
+    """clause 4: ladder read == plain read of the filled-in sheet (same extent); fobjs = that read"""
     out = []
-    filled = m.filled_grid()
-    res = read_real(case, grid=filled, ladder=False)
-    if res[0] != 'ok':
-        out.append(('ladder_equals_filled', 'filled-read-fails',
-                    f"plain reading of the filled-in sheet: {res[0]} {res[1]} {res[2] if res[0] == 'raise' else ''}"))
-        return out
-    fobjs = res[1]
     if len(fobjs) != len(objs):
         out.append(('ladder_equals_filled', 'object-count-differs',
                     f"{len(objs)} objects from the ladder sheet, {len(fobjs)} from the filled-in sheet"))
@@ -695,27 +755,97 @@ def first_attr_class(case, m):
 
 def evaluate(case):
     """-> (failures [(clause, key, text)], diags, events, nontrivial)"""
-    m = Model(case)
-    events = features(case, m)
+    vs = views(case)
+    ms = [Model(v) for v in vs]
+    m = ms[0]
+    events = set()
+    for v, mv in zip(vs, ms):
+        events |= features(v, mv)
+    events |= table_features(case, vs, ms)
     fails, diags = [], []
+    multi = len(vs) > 1
+
+    def tag(i, items):
+        return [(c, k, (f"class {i + 1} of {len(vs)}: " if multi else '') + t) for c, k, t in items]
+
     res = read_real(case)
     if res[0] == 'raise':
-        cls = first_attr_class(case, m)
+        cls = next((x for x in (first_attr_class(v, mv) for v, mv in zip(vs, ms)) if x), None)
         fails.append(('one_object_per_row', f"raises-{res[1]}" + (':' + cls if cls else ''),
                       f"read_table raises {res[1]}: {res[2]}"))
     elif res[0] == 'budget':
         fails.append(('one_object_per_row', 'budget-overrun',
                       f"iter_table did not finish within the budget ({res[1]} objects for {len(case['grid'])} rows)"))
+    elif res[0] == 'shape':
+        fails.append(('one_object_per_row', 'entry-not-one-item-per-class', res[1]))
     else:
-        objs = res[1]
-        f, d = check_objects(case, m, objs)
-        fails += f
-        diags += d
+        per = res[1]
+        for i, (v, mv, objs) in enumerate(zip(vs, ms, per)):
+            f, d = check_objects(v, mv, objs)
+            fails += tag(i, f)
+            diags += d
         if m.ladder:
-            fails += check_ladder(case, m, objs)
+            fres = read_real(case, grid=m.filled_grid(), ladder=False)
+            if fres[0] != 'ok':
+                fails.append(('ladder_equals_filled', 'filled-read-fails',
+                              f"plain reading of the filled-in sheet: {fres[0]} {fres[1]} "
+                              f"{fres[2] if fres[0] == 'raise' else ''}"))
+            else:
+                for i, (v, mv, objs, fobjs) in enumerate(zip(vs, ms, per, fres[1])):
+                    fails += tag(i, check_ladder(v, mv, objs, fobjs))
     nontrivial = len(m.data_rows) >= 2 and any(
-        a['kind'] == 'ranged' or 'default' in a or a['kind'].startswith('ext') for a in m.attrs)
+        a['kind'] == 'ranged' or 'default' in a or a['kind'].startswith('ext') for a in all_attrs(case))
     return fails, diags, events, nontrivial
+
+
+def table_features(case, vs, ms):
+    """reach events of the table as a whole: several classes on one table, kinds of title cells"""
+    ev = set()
+    m = ms[0]
+    if len(vs) == 2:
+        ev.add('two-classes-one-table')
+    elif len(vs) == 3:
+        ev.add('three-classes-one-table')
+    if len(vs) > 1:
+        if sum(mv.has_ranged for mv in ms) >= 2:
+            ev.add('two-classes-with-a-ranged-attribute')
+        for v, mv in zip(vs, ms):
+            if not (mv.has_ranged and mv.runs):
+                continue
+            run = mv.runs[0]
+            for nb in (run[0] - 1, run[-1] + 1):
+                if 0 <= nb < mv.ncols:
+                    t = mv.titles[nb]
+                    if t and t in mv.known and t not in mv.own_columns:
+                        ev.add('ranged-next-to-foreign-column')
+                        if mv.ladder:
+                            ev.add('ranged-next-to-foreign-column-in-ladder-sheet')
+    cells = m.grid[m.title_row]
+    named = set()
+    for mv in ms:
+        named |= mv.known
+    for c, v in enumerate(cells):
+        if v is None:
+            continue
+        if isinstance(v, str):
+            if v.strip() and v != v.strip():
+                ev.add('padded-title')
+            if v == '':
+                ev.add('empty-string-title')
+            continue
+        ev.add('non-string-title')
+        ev.add(f"{type(v).__name__}-title")
+        if not v:
+            ev.add('falsy-title')
+            if m.titles[c] in named:
+                ev.add('falsy-title-of-named-column')
+            elif any(mv.has_ranged and mv.runs and c in mv.runs[0] for mv in ms):
+                ev.add('falsy-title-in-column-group')
+                if any(mv.has_ranged and mv.runs and c in mv.runs[0][1:-1] for mv in ms):
+                    ev.add('falsy-title-inside-column-group')
+            else:
+                ev.add('falsy-title-of-unread-column')
+    return ev
 
 
 def features(case, m):
@@ -752,7 +882,7 @@ def features(case, m):
                     ev.add('range-between')
                 if len(m.runs) > 1:
                     ev.add('several-runs-of-unknown-columns')
-    if not m.has_ranged and m.unknown_cols:
+    if not m.any_ranged and m.unknown_cols:
         ev.add('unknown-extra-column')
     if m.ladder:
         rl = [m.run_len[r] for r in m.data_rows]
@@ -1036,6 +1166,187 @@ def gen_case(layout, rng):
     return {'title': 'sheet1', 'grid': grid, 'attrs': attrs, 'num_id': num_id, 'stop_on': stop_on, 'ladder': ladder}
 
 
+def _title_texts(grid):
+    t = next(r for r in range(len(grid)) if not all(blank(v) for v in grid[r]))
+    return t, ['' if v is None else str(v).strip() for v in grid[t]]
+
+
+def split_classes(case, rng):
+    """one table, two or three classes: the attributes of a generated single-class case are dealt out to
+    2-3 classes (every class gets at least one attribute read from a present column; the ranged attribute
+    goes to one class, sometimes to two; now and then two classes read the same column).  The sheet is
+    unchanged, so the column group is often next to columns that only ANOTHER class names."""
+    _, texts = _title_texts(case['grid'])
+    attrs = case['attrs']
+    present = [i for i, a in enumerate(attrs) if a['kind'] == 'cell' and a['column'] in texts]
+    n = rng.choice([2, 2, 2, 3])
+    owner = {}
+    order = list(present)
+    rng.shuffle(order)
+    for j, i in enumerate(order):
+        owner[i] = [j] if j < n else [rng.randrange(n)]
+        if rng.random() < 0.12:                      # the same column read by two classes
+            other = rng.randrange(n)
+            if other not in owner[i]:
+                owner[i].append(other)
+    for i, a in enumerate(attrs):
+        if i in owner:
+            continue
+        owner[i] = [rng.randrange(n)]
+        if a['kind'] == 'ranged' and rng.random() < 0.25:
+            other = rng.randrange(n)
+            if other not in owner[i]:
+                owner[i].append(other)
+    classes = []
+    for c in range(n):
+        mine = [dict(attrs[i]) for i in range(len(attrs)) if c in owner[i]]
+        if rng.random() < 0.92:
+            # usually the first attribute of the class is read from a single cell
+            j = next(k for k, a in enumerate(mine) if a['kind'] == 'cell' and a['column'] in texts)
+            mine.insert(0, mine.pop(j))
+        lead = 0
+        while lead < len(mine) and mine[lead]['kind'] == 'cell' and mine[lead]['column'] in texts:
+            lead += 1
+        classes.append({'attrs': mine, 'num_id': min(lead, rng.choice([0, 0, 0, 1, 1, 2]))})
+    out = {k: v for k, v in case.items() if k not in ('attrs', 'num_id')}
+    out['classes'] = classes
+    return out
+
+
+FALSY_TITLES = [0, 0.0, False]
+OTHER_TITLES = [1, True, 2, 3, 7, 2.5, -1, 10, 1.0]
+
+
+def retitle(case, rng):
+    """title cells of other types: numbers (a 'histogram' 0, 1, 2, ... over the column group; single
+    columns titled 0, 0.0, False, True, 2.5, ...), strings with surrounding blanks, '' for untitled columns.
+    The rules name the column by its title text, str(value).strip()."""
+    grid = case['grid']
+    t, texts = _title_texts(grid)
+    row = grid[t]
+    attrs = all_attrs(case)
+    named = {a['column'] for a in attrs if a['kind'] == 'cell'}
+    used = set(texts) | named
+    done = set()
+
+    def put(c, value):
+        old, new = texts[c], str(value).strip()
+        if new in used and new != old:
+            return False
+        used.add(new)
+        for a in attrs:
+            if a['kind'] == 'cell' and a['column'] == old:
+                a['column'] = new
+        row[c] = value
+        texts[c] = new
+        done.add(c)
+        return True
+
+    runs = []
+    for c, x in enumerate(texts):
+        if x and x not in named:
+            if runs and runs[-1][-1] == c - 1:
+                runs[-1].append(c)
+            else:
+                runs.append([c])
+    if runs and rng.random() < 0.45:
+        run = runs[0]
+        kind = rng.choice(['int', 'int', 'int', 'float', 'mixed'])
+        start = rng.choice([0, 0, 0, 1, -1, -2])
+        if rng.random() < 0.3 and len(run) > 2:
+            start = -rng.randint(1, len(run) - 2)        # the 0 falls inside the group
+        for j, c in enumerate(run):
+            n = start + j
+            v = n if kind == 'int' else (float(n) if kind == 'float' else (n if j % 2 else float(n)))
+            put(c, v)
+    p = rng.choice([0.0, 0.15, 0.35])
+    for c, x in enumerate(texts):
+        if x and c not in done and rng.random() < p:
+            pool = [v for v in (FALSY_TITLES if rng.random() < 0.55 else OTHER_TITLES) if str(v) not in used]
+            if pool:
+                put(c, rng.choice(pool))
+    for c, x in enumerate(texts):
+        if c in done:
+            continue
+        if x and isinstance(row[c], str) and rng.random() < 0.3:
+            row[c] = rng.choice([' ', '  ', '']) + row[c].strip() + rng.choice([' ', '   ', ''])
+        elif not x and rng.random() < 0.5:
+            row[c] = rng.choice([None, '', ' ', '   '])
+    return case
+
+
+def two_class_probe_case():
+    """one row described by two classes: the column group of the first class lies between its own
+    columns and the columns of the second class"""
+    return {'title': 'sheet1', 'grid': [
+        ['id', 'name', 'math', 'cs', 'tutor id', 'tutor'],
+        [1, 'Arnold', 'A', 'B', 100, 'Mr. Smith'],
+        [2, 'Henry', None, 'C', 101, 'Ms. Jones']],
+        'classes': [
+            {'attrs': [{'name': 'id', 'kind': 'cell', 'column': 'id', 'reader': 'int'},
+                       {'name': 'name', 'kind': 'cell', 'column': 'name', 'reader': 'str'},
+                       {'name': 'grades', 'kind': 'ranged', 'reader': 'dict-str'}], 'num_id': 1},
+            {'attrs': [{'name': 'id', 'kind': 'cell', 'column': 'tutor id', 'reader': 'int'},
+                       {'name': 'name', 'kind': 'cell', 'column': 'tutor', 'reader': 'str'}], 'num_id': 1}],
+        'stop_on': 'blank all', 'ladder': False}
+
+
+def three_class_probe_case():
+    """three classes on one ladder table; the group is enclosed by columns of the two other classes"""
+    _ = None
+    return {'title': 'plan', 'grid': [
+        [_, _, _, _, _, _, _],
+        ['Year', 'Dept', 'q1', 'q2', 'Head', _, 'Room'],
+        [2020, 'A', 1, 2, 'ann', _, 'r1'],
+        [_, 'B', 3, _, 'bob', _, 'r2'],
+        [_, _, 7, 4, 'cid', _, _],
+        [_, _, _, _, 'dan', _, 'r3'],
+        [2021, 'A', 5, 6, 'ann', _, 'r1'],
+        [_, _, _, _, _, _, _],
+        ['total', _, 9, 12, _, _, _]],
+        'classes': [
+            {'attrs': [{'name': 'year', 'kind': 'cell', 'column': 'Year', 'reader': 'int'},
+                       {'name': 'plan', 'kind': 'ranged', 'reader': 'dict-int'}], 'num_id': 0},
+            {'attrs': [{'name': 'dept', 'kind': 'cell', 'column': 'Dept', 'reader': 'str'},
+                       {'name': 'room', 'kind': 'cell', 'column': 'Room', 'reader': 'str',
+                        'default': {'const': None}}], 'num_id': 1},
+            {'attrs': [{'name': 'head', 'kind': 'cell', 'column': 'Head', 'reader': 'str'},
+                       {'name': 'ext', 'kind': 'ext-none'}], 'num_id': 0}],
+        'stop_on': 'blank all', 'ladder': True}
+
+
+def histogram_probe_case():
+    """a column group titled with numbers 0, 1, 2, 3 (the title cells hold ints)"""
+    _ = None
+    return {'title': 'stats', 'grid': [
+        [_, _, _, _, _, _],
+        ['id', 'name', 0, 1, 2, 3],
+        [10, 'backup', 95, 4, 1, _],
+        [20, 'sync', 70, 20, _, 10],
+        [_, _, _, _, _, _],
+        ['trailing', 'content', 1, 2, 3, 4]],
+        'attrs': [{'name': 'id', 'kind': 'cell', 'column': 'id', 'reader': 'int'},
+                  {'name': 'name', 'kind': 'cell', 'column': 'name', 'reader': 'str'},
+                  {'name': 'retries_hist', 'kind': 'ranged', 'reader': 'dict-int'}],
+        'num_id': 1, 'stop_on': 'blank all', 'ladder': False}
+
+
+def odd_titles_probe_case():
+    """read columns titled 0, False and 0.0 (rules name them '0', 'False', '0.0'), a padded title, an
+    untitled '' column, a group -1, 0, 1 with the 0 inside"""
+    _ = None
+    return {'title': 's', 'grid': [
+        [0, ' Name  ', '', -1, 0.0, 1, False, True],
+        [1, 'ann', 'm', 5, 6, 7, 'v', 'x'],
+        [2, 'bob', _, _, 0, 9, '', _]],
+        'attrs': [{'name': 'id', 'kind': 'cell', 'column': '0', 'reader': 'int'},
+                  {'name': 'name', 'kind': 'cell', 'column': 'Name', 'reader': 'str'},
+                  {'name': 'flag', 'kind': 'cell', 'column': 'False', 'reader': 'bool'},
+                  {'name': 'hist', 'kind': 'ranged', 'reader': 'dict-int'},
+                  {'name': 'note', 'kind': 'cell', 'column': 'True', 'reader': 'str', 'default': {'const': None}}],
+        'num_id': 1, 'stop_on': 'blank all', 'ladder': False}
+
+
 def defect_probe_case():
     """the anticipated failing input of DESIGN.md Appendix A: 29-column sheet, group over B..AC"""
     titles = ['id'] + [f"c{n:02d}" for n in range(1, 29)]
@@ -1096,20 +1407,47 @@ REACH = ['ladder-run>=2-cells-over>=2-rows', 'missing-optional-column', 'range-c
          'optional-column-present', 'class-with-key-attribute', 'margin-note-row-then-data',
          'ladder-margin-note-row-then-data', 'margin-note-outside-the-titled-span-then-data', 'margin-note-row-last', 'class-with-2-attribute-id', 'class-with-3-attribute-id',
          'partly-blank-multi-attribute-id', 'ladder-row-inheriting-part-of-a-partly-blank-id',
-         'row-with-wholly-blank-id']
+         'row-with-wholly-blank-id',
+         # several classes on one table; title cells that are not plain strings
+         'two-classes-one-table', 'three-classes-one-table', 'ranged-next-to-foreign-column',
+         'ranged-next-to-foreign-column-in-ladder-sheet', 'two-classes-with-a-ranged-attribute',
+         'non-string-title', 'int-title', 'float-title', 'bool-title', 'falsy-title',
+         'falsy-title-in-column-group', 'falsy-title-inside-column-group', 'falsy-title-of-named-column',
+         'falsy-title-of-unread-column', 'padded-title', 'empty-string-title']
+
+
+def variant_plan(tier):
+    """[(variant number, mode)]: 'base' = one class, string titles (the original space); 'multi' = the table
+    is read into 2-3 classes (40 % of them with re-typed titles); 'titles' = one class, re-typed titles"""
+    nb, nm, nt = (2, 2, 2) if tier == 'quick' else (40, 30, 30)
+    return [(v, 'base') for v in range(nb)] + [(nb + v, 'multi') for v in range(nm)] + \
+           [(nb + nm + v, 'titles') for v in range(nt)]
 
 
 def variants(tier):
-    return 2 if tier == 'quick' else 40
+    return len(variant_plan(tier))
+
+
+def make_case(layout, seed, idx, v, mode):
+    case = gen_case(layout, random.Random(f"c18:{seed}:{idx}:{v}"))
+    if mode == 'base':
+        return case
+    rx = random.Random(f"c18x:{seed}:{idx}:{v}")
+    if mode == 'multi':
+        case = split_classes(case, rx)
+        if rx.random() < 0.4:
+            retitle(case, rx)
+    else:
+        retitle(case, rx)
+    return case
 
 
 def _work(args):
-    seed, v, chunk = args
+    seed, v, mode, chunk = args
     out = []
     for idx, layout in chunk:
-        rng = random.Random(f"c18:{seed}:{idx}:{v}")
-        case = gen_case(layout, rng)
-        m = Model(case)
+        case = make_case(layout, seed, idx, v, mode)
+        m = None if 'classes' in case else Model(case)
         why = preconditions(case, m)
         if why is not None:
             out.append((None, why, None, None, None))
@@ -1129,17 +1467,17 @@ def canon_digest(case):
 def run(b):
     import multiprocessing
     all_layouts = list(enumerate(layouts()))
-    nv = variants(b.tier)
     jobs = []
     step = 125
-    for v in range(nv):
+    for v, mode in variant_plan(b.tier):
         for i in range(0, len(all_layouts), step):
-            jobs.append((b.seed, v, all_layouts[i:i + step]))
+            jobs.append((b.seed, v, mode, all_layouts[i:i + step]))
     rejected = {}
     # fixed members of the space first: the 29-column sheet of Appendix A, the smallest external-first rule
     # set, a 'blank all' table with a margin note next to a gap row
     results = [[_one(defect_probe_case()), _one(first_attr_probe_case()), _one(margin_note_probe_case()),
-                _one(partial_id_probe_case())]]
+                _one(partial_id_probe_case()), _one(two_class_probe_case()), _one(three_class_probe_case()),
+                _one(histogram_probe_case()), _one(odd_titles_probe_case())]]
     ctx = multiprocessing.get_context('fork')
     with ctx.Pool(min(12, max(1, (multiprocessing.cpu_count() or 2) - 2))) as pool:
         results += pool.map(_work, jobs, chunksize=1)
